@@ -8,7 +8,7 @@ R = Runner('C02', 'bounded: <= 3 antennas x 2 pols, taps <= 4, 8-16 branches, <=
 rng = R.rng
 
 
-def make(cfg, nsub, bpf, seed):
+def make(cfg, nsub, bpf, seed, prefix_stats=False):
     nant, npol, nbits, taps, nb, nc, sc, M, dig = cfg
     if nant == 1:
         src = stg.voltage.Antenna(sample_rate=1e6, fch1=0, ascending=True, num_pols=npol, seed=seed)
@@ -20,9 +20,11 @@ def make(cfg, nsub, bpf, seed):
         s.add_noise(0, 1)
         s.add_constant_signal(f_start=1e5, drift_rate=0, level=0.3)
     bps = 2 * npol * nbits // 8
-    be = stg.voltage.RawVoltageBackend(src, digitizer=stg.voltage.RealQuantizer(target_fwhm=32, num_bits=8, stats_calc_period=-1),
+    kd = dict(stats_calc_num_samples=8) if prefix_stats else {}
+    kr = dict(stats_calc_num_samples=taps) if prefix_stats else {}
+    be = stg.voltage.RawVoltageBackend(src, digitizer=stg.voltage.RealQuantizer(target_fwhm=32, num_bits=8, stats_calc_period=-1, **kd),
                                        filterbank=stg.voltage.PolyphaseFilterbank(num_taps=taps, num_branches=nb),
-                                       requantizer=stg.voltage.ComplexQuantizer(target_fwhm=32 if nbits == 8 else 6, num_bits=nbits, stats_calc_period=-1),
+                                       requantizer=stg.voltage.ComplexQuantizer(target_fwhm=32 if nbits == 8 else 6, num_bits=nbits, stats_calc_period=-1, **kr),
                                        start_chan=sc, num_chans=nc, block_size=M * taps * nant * nc * bps, blocks_per_file=bpf, num_subblocks=nsub)
     return be, src
 
@@ -123,6 +125,19 @@ for it in range(R.n(10, 120)):
         base = results[keys[0]]
         same = all(results[k].shape == base.shape and np.array_equal(results[k], base) for k in keys[1:])
         R.check('partition-independence/sub-blocks-and-blocks-per-file', dict(c, partitions=[list(k) for k in keys]), same, None)
+    # the same with the library's own "estimate once" schedule (stats_calc_period=-1) and statistics taken from a prefix that every
+    # partition shares (the first `taps` spectra / first 8 voltages): nothing is preset or patched here
+    honest = {}
+    for nsub in sorted(set([1, M, rng.randint(1, M)])):
+        for bpf in sorted(set([1, 3])):
+            be, src = make(cfg, nsub, bpf, case, prefix_stats=True)
+            stem = os.path.join(R.tmp, f'h{case}_{nsub}_{bpf}')
+            if R.guard('record', dict(c, nsub=nsub, bpf=bpf, prefix_stats=True), lambda: (be.record(stem, num_blocks=N, length_mode='num_blocks', digitize=dig, header_dict={}, load_template=False, verbose=False), True)[1]):
+                honest[(nsub, bpf)] = decode(stem, nant, npol, nbits, nc)
+    hk = list(honest)
+    if len(hk) >= 2:
+        same = all(honest[k].shape == honest[hk[0]].shape and np.array_equal(honest[k], honest[hk[0]]) for k in hk[1:])
+        R.check('partition-independence/estimate-once-statistics-from-a-common-prefix', dict(c, partitions=[list(k) for k in hk]), same, None)
     if keys:
         got = results[keys[0]]
         lo, hi = -2 ** (nbits - 1), 2 ** (nbits - 1) - 1
